@@ -57,6 +57,11 @@ def configs(tier):
                         continue
                     for shape in ([[2]] if tier == "quick" else [[], [2]]):
                         out.append(dict(kind="vector", op=op, rhs=rhs, nvec=nvec, ua=ua, ub=ub, shape=shape))
+    # an Array on the left, a Vector on the right: the Array cannot hold the result; Python falls back to x = x op y, so the
+    # name must end up bound to the Vector x op y (and not silently keep the old Array)
+    for op in IOPS:
+        for nvec in (2, 3):
+            out.append(dict(kind="array-op-vector", op=op, nvec=nvec, ua="m", ub=("cm" if op in ("iadd", "isub") else "s")))
     # two successive in-place updates of a Vector held in two Datagroups (the second one changes the unit)
     for nvec in (1, 2, 3):
         for shape in ([], [2]):
@@ -243,6 +248,8 @@ def body(m, cfg):
                 m.require(C.same_terms(m, m.vals(c._array), wv[i]) and C.unit_dim_ok(c.unit, db),
                           "right operand untouched", key=f"rhs-changed:{tag}")
         return
+    if kind == "array-op-vector":
+        return _array_op_vector(m, cfg)
     if kind == "vector-seq":
         return _vector_seq(m, cfg)
     if kind == "strided":
@@ -253,6 +260,39 @@ def body(m, cfg):
         return _containers(m, cfg)
     if kind == "interleave":
         return _interleave(m, cfg)
+
+
+def _array_op_vector(m, cfg):
+    from osyris import Array, Vector
+    from pint.errors import DimensionalityError
+    op, nvec, ua, ub = cfg["op"], cfg["nvec"], cfg["ua"], cfg["ub"]
+    tag = f"{op}:Array-target:Vector-rhs:n{nvec}"
+    fa, da = C.fd(ua)
+    fb, db = C.fd(ub)
+    a = Array(m.array("a", (2,), "float64"), unit=ua)
+    comps = [m.array("v" + c, (2,), "float64") for c in "xyz"[:nvec]]
+    v = Vector(*comps, unit=ub)
+    if op == "idiv":
+        for c in comps:
+            for t in m.vals(c):
+                m.assume(m.Not(m.eq(t, 0)))
+    av = m.vals(a._array)
+    snap_a = C.snapshot(m, a)
+    snaps_v = [C.snapshot(m, c) for c in C.vcomps(v).values()]
+    try:
+        r = _apply(op, a, v)
+    except (TypeError, DimensionalityError):
+        m.ok("refused")                      # a refusal is fine; a silent no-op is not
+        return
+    if not m.require(isinstance(r, Vector) and r.nvec == nvec, "x op= y with a Vector y leaves x bound to the Vector x op y", key=f"type:{tag}",
+                     info=type(r).__name__):
+        return
+    dim = {"iadd": da, "isub": da, "imul": U.dim_mul(da, db), "idiv": U.dim_mul(da, U.dim_inv(db))}[op]
+    for c, rc, vc in zip("xyz", C.vcomps(r).values(), comps):
+        ex, sc = _expected(m, op, av, m.vals(vc), fa, fb)
+        _check_updated(m, rc, ex, sc, dim, tag, "component " + c)
+    m.require(all(C.unchanged(m, c, s_) for c, s_ in zip(C.vcomps(v).values(), snaps_v)), "y untouched", key=f"rhs-changed:{tag}")
+    m.require(C.unchanged(m, a, snap_a), "the Array object itself keeps its old value (the result is a new Vector)", key=f"lhs-changed:{tag}")
 
 
 def _vector_seq(m, cfg):
